@@ -13,7 +13,6 @@ package simsync
 
 import (
 	"fmt"
-	"runtime"
 	"runtime/debug"
 	"strconv"
 	"strings"
@@ -94,9 +93,9 @@ func (s *Sched) Go(name string, fn func()) {
 
 //go:norace
 func (s *Sched) taskMain(t *task) {
-	runtime.RaceDisable()
+	raceDisable()
 	<-t.wake
-	runtime.RaceEnable()
+	raceEnable()
 	defer func() {
 		if p := recover(); p != nil {
 			t.panicV = p
@@ -105,9 +104,9 @@ func (s *Sched) taskMain(t *task) {
 		t.done = true
 		t.kind = opDone
 		s.wg.Done()
-		runtime.RaceDisable()
+		raceDisable()
 		s.back <- struct{}{}
-		runtime.RaceEnable()
+		raceEnable()
 	}()
 	t.fn()
 }
@@ -116,10 +115,10 @@ func (s *Sched) taskMain(t *task) {
 //
 //go:norace
 func (s *Sched) park(t *task) {
-	runtime.RaceDisable()
+	raceDisable()
 	s.back <- struct{}{}
 	<-t.wake
-	runtime.RaceEnable()
+	raceEnable()
 }
 
 //go:norace
@@ -227,10 +226,10 @@ func (s *Sched) Run() {
 		}
 		cur = next
 		s.running = next
-		runtime.RaceDisable()
+		raceDisable()
 		next.wake <- struct{}{}
 		<-s.back
-		runtime.RaceEnable()
+		raceEnable()
 		s.running = nil
 		if next.done && next.panicV != nil {
 			site := panicSite(next.stack)
